@@ -432,7 +432,7 @@ func c12Run(c *core.Ctx, raw json.RawMessage) {
 		newest := src.Snaps[len(src.Snaps)-1]
 		a, err := xfer.OpenCopy(src.SnapDir, filepath.Join(c.Dir, "A"))
 		if err != nil {
-			c.Violate("source-open-failed", "%v", err)
+			violate(c, "source-open-failed", "%v", err)
 			return
 		}
 		d, err := xfer.OpenCopy(filepath.Join(c.Dir, "none"), filepath.Join(c.Dir, "I"))
@@ -464,7 +464,7 @@ func c12Run(c *core.Ctx, raw json.RawMessage) {
 		e.one(opi, op, sc.Store)
 	}
 	if !c.Failed() && e.def.class != "" {
-		c.Violate(e.def.class, "%s", e.def.detail)
+		violate(c, e.def.class, "%s", e.def.detail)
 	}
 	c.Res.Trivial = c.Res.Cases == 0
 }
@@ -567,7 +567,7 @@ func (e *c12Env) one(opi int, op *c12Op, storeKind string) {
 		}
 	default:
 		if !open() {
-			c.Violate("pristine-store-open-failed", "op %d: NewStore on a pristine copy failed: %v", opi, err)
+			violate(c, "pristine-store-open-failed", "op %d: NewStore on a pristine copy failed: %v", opi, err)
 			return
 		}
 		// first verification on the pristine files
@@ -583,7 +583,7 @@ func (e *c12Env) one(opi int, op *c12Op, storeKind string) {
 		}
 		if err != nil {
 			st.Close()
-			c.Violate("pristine-verify-failed", "op %d: first verification of a pristine store failed: %v", opi, err)
+			violate(c, "pristine-verify-failed", "op %d: first verification of a pristine store failed: %v", opi, err)
 			return
 		}
 		if !mutate() {
@@ -689,11 +689,11 @@ func (e *c12Env) one(opi int, op *c12Op, storeKind string) {
 				e.def.set(c, cls, "%s: corruption arose after the store's first verification, a reap consolidated the corrupted file (reap error: %q) and recomputed the checksum; the store's newest snapshot now restores WITHOUT error to a database that differs from the original: %s", tag, failure, diff)
 				return
 			}
-			c.Violate("altered-data-used", "%s: the consumer succeeded and produced a database that differs from the original: %s", tag, diff)
+			violate(c, "altered-data-used", "%s: the consumer succeeded and produced a database that differs from the original: %s", tag, diff)
 			return
 		}
 		if relevant && op.Cons == "reap" && op.Phase == "a" && reapOK && !benign {
-			c.Violate("corruption-undetected", "%s: Reap succeeded although a file it consolidates was corrupt before the store was opened", tag)
+			violate(c, "corruption-undetected", "%s: Reap succeeded although a file it consolidates was corrupt before the store was opened", tag)
 			return
 		}
 		if relevant && !(op.Cons == "reap" && op.Phase == "b") {
@@ -705,7 +705,7 @@ func (e *c12Env) one(opi int, op *c12Op, storeKind string) {
 				c.Probe("detected_by_reap")
 				return
 			}
-			c.Violate("corruption-undetected", "%s: the consumer used the corrupted file without noticing (output happens to equal the original)", tag)
+			violate(c, "corruption-undetected", "%s: the consumer used the corrupted file without noticing (output happens to equal the original)", tag)
 			return
 		}
 		if relevant {
@@ -764,7 +764,7 @@ func (e *c12Env) transfer(st *snapshot.Store, id string, zstd bool, tag string) 
 	defer dest.Close()
 	o := e.eng.Run(&xfer.Spec{Src: st, ID: id, Dest: dest, Zstd: zstd, Split: xfer.SplitPlan{Mode: "rand", Rng: core.NewRand(uint64(len(tag)) * 77)}, RestoreTo: e.tmp})
 	if o.Stuck {
-		c.Violate("transfer-hung", "%s: transfer made no progress for 300 simulated seconds", tag)
+		violate(c, "transfer-hung", "%s: transfer made no progress for 300 simulated seconds", tag)
 		return nil, "stuck"
 	}
 	if o.Installed && o.Restored {
@@ -773,7 +773,7 @@ func (e *c12Env) transfer(st *snapshot.Store, id string, zstd bool, tag string) 
 	}
 	if !o.Installed {
 		if ids, _, _ := xfer.IDs(dest); len(ids) != 0 {
-			c.Violate("failed-install-left-snapshot", "%s: rejected install left snapshots %v at the destination", tag, ids)
+			violate(c, "failed-install-left-snapshot", "%s: rejected install left snapshots %v at the destination", tag, ids)
 		}
 		return nil, fmt.Sprintf("install: %v", o.InstallErr())
 	}
